@@ -843,12 +843,20 @@ def real_files_stage(ctx, exe):
         cases.append((fb, data, rng.choice([len(fb) + 1, 1 if len(fb) < 3000 else 7, 13, 4096, 8192, 8193, 70000]),
                       rng.choice([0, 0, rng.randrange(1, 1 << 30)])))
 
-    def one(c):
-        return judge_real_file(exe, xz, c[0], c[1], c[2], c[3], workdir + "/t%d" % (id(c) % 100000))
+    # one private directory per case: the temporary file name only depends on the pid
+    def one(kc):
+        k, c = kc
+        d = os.path.join(workdir, "real-%d-%d" % (os.getpid(), k))
+        os.makedirs(d, exist_ok=True)
+        try:
+            return judge_real_file(exe, xz, c[0], c[1], c[2], c[3], d)
+        finally:
+            try:
+                os.rmdir(d)
+            except OSError:
+                pass
 
-    for c in cases:
-        os.makedirs(workdir + "/t%d" % (id(c) % 100000), exist_ok=True)
-    res = vlib.par_map(one, cases)
+    res = vlib.par_map(one, list(enumerate(cases)))
     bad = 0
     for c, r in zip(cases, res):
         ctx.case(("realfile", len(c[0]), len(c[1]), c[2], c[3], c[0][:64].hex()), nontrivial=True, sample=None)
